@@ -30,11 +30,11 @@ Verdict(r) ==
       fullWrites == {i \in 1..Len(r.writes): IsFull(r.writes[i])}
       kept == SelectSeq(AllRecs(r), LAMBDA x: x[1] = EV_KEY /\ x[3] \in {0, 1} /\ Known(x[2]))
   IN (IF r.status # "ok" THEN {"C18-send-failed"} ELSE {})
-     \cup (IF \E i \in batchWrites: r.writes[i].bytes # Encode(r.writes[i].batch, CodeOf, L) THEN {"C18-bytes"} ELSE {})
+     \cup (IF \E i \in batchWrites: ~SameRecords(r.writes[i].bytes, Encode(r.writes[i].batch, CodeOf, L), L) THEN {"C18-bytes"} ELSE {})
      \* "for every batch ... the bytes written are ...": a send that reports success has written the batch, whole; into a full descriptor it cannot have
-     \cup (IF \E i \in fullWrites: r.writes[i].sendres = "ok" /\ r.writes[i].bytes # Encode(r.writes[i].batch, CodeOf, L)
+     \cup (IF \E i \in fullWrites: r.writes[i].sendres = "ok" /\ ~SameRecords(r.writes[i].bytes, Encode(r.writes[i].batch, CodeOf, L), L)
            THEN {"C18-send-reported-success-for-bytes-it-did-not-write"} ELSE {})
-     \cup (IF \E i \in fullWrites: r.writes[i].bytes # <<>> /\ r.writes[i].bytes # Encode(r.writes[i].batch, CodeOf, L) THEN {"C18-partial-batch-written"} ELSE {})
+     \cup (IF \E i \in fullWrites: r.writes[i].bytes # <<>> /\ ~SameRecords(r.writes[i].bytes, Encode(r.writes[i].batch, CodeOf, L), L) THEN {"C18-partial-batch-written"} ELSE {})
      \cup (IF Len(r.decoded) # Len(kept) THEN {"C18-decoded-count"}
            ELSE IF \E i \in 1..Len(kept): r.decoded[i].t # (IF kept[i][3] = 1 THEN "P" ELSE "R") \/ r.decoded[i].k \notin NameSet(kept[i][2])
                 THEN {"C18-decoded-events"} ELSE {})
